@@ -557,6 +557,9 @@ class Executor:
                 and len(args) == 3 and not kwargs:
             # scipy.stats.binom (documented): pmf(k, n, p) = C(n,k) p^k (1-p)^(n-k); cdf(k) = P(X <= k); sf(k) = P(X > k) - the STRICT upper tail
             k_, n_, p_ = exact(args[0]), exact(args[1]), exact(args[2])
+            if isinstance(k_, VList) and k_.kind == 'ndarray' and all(isinstance(exact(i), (int, Fraction)) and not isinstance(exact(i), bool) for i in k_.items):
+                # vectorised over an integer array of k (numpy broadcasting of the first argument)
+                return VList([self.abstract_call(f, [i, args[1], args[2]], kwargs) for i in k_.items], 'ndarray')
             if isinstance(k_, (int, Fraction)) and isinstance(n_, (int, Fraction)) and int(k_) == k_ and int(n_) == n_ and 0 <= n_ <= 40 and is_scalar(p_):
                 import math as _m
                 k_, n_ = int(k_), int(n_)
@@ -999,6 +1002,13 @@ class Executor:
                     if not -len(obj.items) <= i < len(obj.items):
                         raise PyRaise('IndexError', 'fancy index out of range')
                     obj.items[i] = x
+                self._mutated(obj, 'setitem')
+                return
+            if isinstance(k, tuple) and len(k) == 2 and isinstance(k[0], int) and not isinstance(k[0], bool) and isinstance(k[1], VList) \
+                    and all(isinstance(i, int) and not isinstance(i, bool) for i in k[1].items) and -len(obj.items) <= k[0] < len(obj.items) \
+                    and isinstance(obj.items[k[0]], VList) and len(set(i % len(obj.items[k[0]].items) for i in k[1].items)) == len(k[1].items):
+                # a[i, idx] = vals with an integer index array without repeated targets: row i, entries idx
+                self.setitem(obj.items[k[0]], k[1], v)
                 self._mutated(obj, 'setitem')
                 return
             raise Unsupported('setitem %s[%s]' % (vrepr(obj), vrepr(k)))
@@ -1822,6 +1832,39 @@ class Executor:
                     return VList([obj.items[i] for i in idx], 'ndarray')
                 except IndexError:
                     raise PyRaise('IndexError', 'fancy index out of range')
+            # boolean masks (1-D, entries settled under the path condition; an undetermined entry splits the path) -> integer index arrays
+            def _is_mask(v):
+                return isinstance(v, VList) and len(v.items) > 0 and all(isinstance(exact(i), bool) or (isinstance(exact(i), z3.ExprRef) and z3.is_bool(exact(i))) for i in v.items)
+
+            def _mask_idx(v):
+                return VList([i for i, b in enumerate(v.items) if (exact(b) if isinstance(exact(b), bool) else self.ctx.decide(exact(b)))], 'ndarray')
+            if obj.kind == 'ndarray' and _is_mask(k) and len(k.items) == len(obj.items):
+                return VList([obj.items[i] for i in _mask_idx(k).items], 'ndarray')
+            if obj.kind == 'ndarray' and isinstance(k, tuple) and any(_is_mask(x) for x in k) and \
+                    all(_is_mask(x) or (isinstance(x, slice) and all(y is None or isinstance(y, int) for y in (x.start, x.stop, x.step))) for x in k):
+                ks = [_mask_idx(x) if _is_mask(x) else x for x in k]
+                adv = [i for i, x in enumerate(ks) if isinstance(x, VList)]
+                if len(adv) == 1:
+                    # one advanced index among slices: its axis stays in place
+                    def nd1(a, rest):
+                        if not rest:
+                            return a
+                        if not isinstance(a, VList):
+                            raise PyRaise('IndexError', 'too many indices for array')
+                        k0 = rest[0]
+                        sel_ = a.items[k0] if isinstance(k0, slice) else [a.items[i] for i in k0.items]
+                        return VList([nd1(x, rest[1:]) for x in sel_], 'ndarray')
+                    return nd1(obj, ks)
+                if len(adv) == 2 and adv == [0, 1] and len(ks) == 2:
+                    r_, c_ = ks[0].items, ks[1].items
+                    if len(r_) != len(c_):
+                        if len(r_) == 1:
+                            r_ = r_ * len(c_)
+                        elif len(c_) == 1:
+                            c_ = c_ * len(r_)
+                        else:
+                            raise PyRaise('IndexError', 'shape mismatch: indexing arrays could not be broadcast together')
+                    return VList([obj.items[a_].items[b_] for a_, b_ in zip(r_, c_)], 'ndarray')
             raise Unsupported('index %s of list' % vrepr(k))
         if isinstance(obj, MemoProbe):
             raise MemoHit(k)
@@ -2049,6 +2092,38 @@ class Executor:
                 return PyFn(nonfinite, 'numpy.' + name)
             if name == 'atleast_1d':
                 return PyFn(lambda x: VList([x], 'ndarray') if is_scalar(exact(x)) else self.np_array(x), 'numpy.atleast_1d')
+            if name == 'squeeze':
+                def squeeze_(a, axis=None):
+                    """numpy docs: remove axes of length one (all of them when axis is None)"""
+                    if axis is not None or not isinstance(a, VList):
+                        return Tm('call:lib:numpy.squeeze', a)
+                    def sq(v):
+                        if not isinstance(v, VList):
+                            return v
+                        if len(v.items) == 1:
+                            return sq(v.items[0])
+                        return VList([sq(i) for i in v.items], 'ndarray')
+                    def rect(v):
+                        if not isinstance(v, VList):
+                            return ()
+                        shp = [rect(i) for i in v.items]
+                        if any(x != shp[0] for x in shp[1:]) or any(x is None for x in shp):
+                            return None
+                        return (len(v.items),) + (shp[0] if shp else ())
+                    if rect(a) is None:
+                        return Tm('call:lib:numpy.squeeze', a)
+                    return sq(a)
+                return PyFn(squeeze_, 'numpy.squeeze')
+            if name == 'concatenate':
+                def concatenate_(seq, axis=0):
+                    parts = list(self.iterate(seq)) if isinstance(seq, (VList, tuple, list)) else None
+                    if axis != 0 or parts is None or not all(isinstance(x, (VList, list, tuple)) for x in parts):
+                        return Tm('call:lib:numpy.concatenate', seq)
+                    out_ = []
+                    for x in parts:
+                        out_ += list(self.iterate(x))
+                    return VList(out_, 'ndarray')
+                return PyFn(concatenate_, 'numpy.concatenate')
             if name == 'ndindex':
                 def ndindex(*shape):
                     if len(shape) == 1 and isinstance(shape[0], (tuple, VList)):
@@ -2063,6 +2138,12 @@ class Executor:
                     """axiom (numpy docs): composite trapezoid rule along the last axis, sum_j d_j (y_j + y_{j+1})/2 with d = diff(x), or dx (scalar or array)"""
                     def leaves_scalar(v):
                         return all(leaves_scalar(i) if isinstance(i, VList) else is_scalar(exact(i)) for i in v.items)
+                    if isinstance(y, VList) and isinstance(axis, int) and not isinstance(axis, bool) and axis > 0:
+                        nd_, v_ = 0, y
+                        while isinstance(v_, VList) and v_.items:
+                            nd_, v_ = nd_ + 1, v_.items[0]
+                        if axis == nd_ - 1:
+                            axis = -1
                     if isinstance(y, VList) and axis == 0 and leaves_scalar(y) and (x is None or (isinstance(x, VList) and leaves_scalar(x))) and len(y.items) >= 1:
                         # along the first axis: sum_k d_k (y[k] + y[k+1])/2 with whole sub-arrays as summands
                         m = len(y.items)
@@ -2709,6 +2790,22 @@ class Executor:
                 except TypeError as e:
                     raise PyRaise('TypeError', str(e))
                 return VList([i for _, _, i in keyed])
+            if not k.get('key') and items and all(is_scalar(exact(i)) and not isinstance(exact(i), bool) for i in items) and len(items) <= 6:
+                # symbolic scalars: insertion sort whose comparisons are decided under the path condition (an open comparison splits the path);
+                # Python's sort is stable, and elements that compare equal are interchangeable as values
+                out_ = []
+                for it in items:
+                    pos = len(out_)
+                    while pos > 0:
+                        lt = to_z3(exact(it)) < to_z3(exact(out_[pos - 1]))
+                        if ex.ctx.decide(lt):
+                            pos -= 1
+                        else:
+                            break
+                    out_.insert(pos, it)
+                if k.get('reverse'):
+                    raise Unsupported('sorted(reverse=True) of symbolic values')
+                return VList(out_)
             raise Unsupported('sorted of symbolic values')
 
         def _reversed(x):
